@@ -22,6 +22,8 @@ var Harnesses = map[string]func(){
 	"cont.H_Release":          cont.H_Release,
 	"cont.H_Misuse":           cont.H_Misuse,
 	"cont.H_Registry":         cont.H_Registry,
+	"cont.H_Builtins":         cont.H_Builtins,
+	"cont.H_Reserved":         cont.H_Reserved,
 	"cont.H_Faults":           cont.H_Faults,
 	"cont.H_ReleaseChild":     cont.H_ReleaseChild,
 	"cont.H_CloseInCallback":  cont.H_CloseInCallback,
